@@ -77,6 +77,57 @@ def gen_pm_singles(repo, out):
             "(* ---- phasematch_singles_fiber_coupling: one definition per `let`; p = scalar inputs, (z1, z2) in [-1, 1]^2 ---- *)\n",
             em.text(),
             f"Definition pms_integrand (p : pm_params) (z1 z2 : R) : C :=\n  {val}.\n"]
+    # ---- the closure as a function of its captured coefficients (nested lets): pms_closure
+    outer_ty = {d[0]: d[1] for d in em.defs if not d[3]}
+
+    def paths(e, acc):
+        if isinstance(e, tuple):
+            if e and e[0] == "path" and len(e[1]) == 1:
+                acc.add(e[1][0])
+            for x in e:
+                paths(x, acc)
+        elif isinstance(e, list):
+            for x in e:
+                paths(x, acc)
+        return acc
+    used = paths(cbody, set())
+    captured = [d[0] for d in em.defs if not d[3] and d[0] in used]
+    cenv2 = dict(clo[3])
+    # outer names that are direct parameter aliases (no definition of their own) and are read by the closure: parameters too
+    import re as _re
+    aliases = [(nme, v) for nme, v in clo[3].items() if isinstance(v, R) and _re.fullmatch(r"\(p_\w+ p\)", v) and nme in used
+               and nme not in ("omega_s", "omega_i")]
+    for nme, v in aliases:
+        cenv2[nme] = R(nme)
+        if v == P("p_L"):
+            ev.length_alias = R(nme)
+    for nme in captured:
+        cenv2[nme] = CX(nme) if outer_ty[nme] == "C" else R(nme)
+    cenv2[z1], cenv2[z2] = R("z1"), R("z2")
+    ev.apod_fmt = "(apod {z})"
+    lets_txt, seen = [], set()
+    for st in cbody[1]:
+        if st[0] == "use":
+            continue
+        if st[0] != "let" or st[3] is None:
+            raise Untranslatable(spath, it.span[0], "closure statement outside the subset")
+        nme = st[1][1] if st[1][0] == "pbind" else st[1][1][0]
+        v = ev.ev(st[3], cenv2)
+        if not isinstance(v, (CX, R)) or nme in seen or nme in captured:
+            raise Untranslatable(spath, it.span[0], f"closure let {nme}")
+        seen.add(nme)
+        ty = "C" if isinstance(v, CX) else "R"
+        lets_txt.append(f"  let {nme} : {ty} := {v} in")
+        cenv2[nme] = CX(nme) if ty == "C" else R(nme)
+    resc = ev.ev(cbody[2], cenv2)
+    ev.apod_fmt = "(p_apod p {z})"
+    ev.length_alias = None
+    binders = " ".join([f"({n} : R)" for n, _ in aliases] + [f"({n} : {outer_ty[n]})" for n in captured])
+    body.append("(* ---- the same closure as a function of its captured coefficients ---- *)\n"
+                f"Definition pms_closure (apod : R -> R) {binders} (z1 z2 : R) : C :=\n" + "\n".join(lets_txt) + f"\n  {resc}.\n")
+    body.append("Definition pms_closure_of (p : pm_params) (z1 z2 : R) : C :=\n  pms_closure (p_apod p) "
+                + " ".join([str(v) for _, v in aliases] + [f"(pms_{n} p)" for n in captured]) + " z1 z2.\n")
+
     # the remaining statements
     env2 = dict(env)
     rest = stmts[k + 1:]
